@@ -4,7 +4,8 @@
    url.QueryEscape), Model/JsEscape.v (template.JSEscapeString, json.Marshal of
    a string); decoders: Spec/Codec.v, Spec/Html.v. *)
 From Soy Require Import Model.Bytes Generated.Tables Model.Utf8 Model.Num Model.Outcome Model.Values Model.Escape Model.Directives Model.JsEscape
-  Model.JsonEncode Spec.Html Spec.Codec Spec.Json Proofs.Utf8Proofs Proofs.CodecProofs Proofs.CodecJsPair Proofs.CodecJsonNum Proofs.CodecJson.
+  Model.JsonEncode Spec.Html Spec.Codec Spec.Json Proofs.Utf8Proofs Proofs.CodecProofs Proofs.CodecJsPair Proofs.CodecJsonNum Proofs.CodecJson
+  Model.JsDirectives Spec.JsUnits Proofs.CodecJsUnits.
 Open Scope N_scope.
 
 (* ---------------- escapeUri ---------------- *)
@@ -291,3 +292,65 @@ Theorem C16_chain_truncate_br : forall s n e out, truncate s n e = Ok out ->
   remove_tok br (change_newline_to_br out) = tmpl_html_escape (remove_newlines out).
 Proof. exact chain_truncate_br. Qed.
 Print Assumptions C16_chain_truncate_br.
+
+(* ---------------- the JavaScript counterparts (soyjs/lib/soyutils.js, over UTF-16 code units) ---------------- *)
+(* Model/JsDirectives.v; tied to node on every run (all 65536 single units + code-unit strings) *)
+
+(* soy.$$escapeJsString: between single or double quotes the escaped text denotes the value,
+   for EVERY code-unit string (lone surrogates included) *)
+Theorem C16_js_jsstr_roundtrip : forall q s, q = 39 \/ q = 34 -> jsu_read q (u_escape_js_string s) = Some s.
+Proof. exact u_jsstr_roundtrip. Qed.
+Print Assumptions C16_js_jsstr_roundtrip.
+
+Theorem C16_js_jsstr_inert : forall s, Forall u_js_inert (u_escape_js_string s).
+Proof. exact u_jsstr_inert. Qed.
+Print Assumptions C16_js_jsstr_inert.
+
+(* soy.$$escapeUri: safe alphabet, query-decodes to the UTF-8 form of the value; throws exactly on an unpaired surrogate *)
+Theorem C16_js_uri_roundtrip : forall s, Forall (fun c => c < 65536) s ->
+  match u_escape_uri s with
+  | Ok out => exists bs, units_utf8 s = Some bs /\ pct_decode out = Some bs /\ Forall u_uri_byte out
+  | Err _ => units_utf8 s = None
+  | _ => False
+  end.
+Proof. intros s. exact (u_uri_roundtrip (length s) s (le_n _)). Qed.
+Print Assumptions C16_js_uri_roundtrip.
+
+(* soy.$$truncate *)
+Theorem C16_js_truncate_fits : forall s n e, (Z.of_nat (length s) <= n)%Z -> u_truncate s n e = s.
+Proof. exact u_truncate_fits. Qed.
+Print Assumptions C16_js_truncate_fits.
+
+Theorem C16_js_truncate_spec : forall s n e, (n < Z.of_nat (length s))%Z ->
+  exists k : nat,
+    u_truncate s n e = take k s ++ (if trunc_ell n e then dots else [])
+    /\ (k <= length s)%nat
+    /\ (Z.of_nat k <= Z.max 0 (trunc_cut n e))%Z
+    /\ (0 <= n -> Z.of_nat (length (u_truncate s n e)) <= n)%Z
+    /\ (u_high_at s (Z.of_nat k - 1) && u_low_at s (Z.of_nat k) = false).
+Proof. exact u_truncate_cut. Qed.
+Print Assumptions C16_js_truncate_spec.
+
+(* what the generated code computes for changeNewlineToBr / insertWordBreaks: helper(soy.$$escapeHtml(x)) *)
+Theorem C16_js_br_only : forall s, remove_tok br (u_change_newline_to_br s) = u_escape_html (remove_newlines s).
+Proof. exact u_br_only. Qed.
+Print Assumptions C16_js_br_only.
+
+Theorem C16_js_wbr_only : forall s n, remove_tok wbr (u_insert_word_breaks s n) = u_escape_html s.
+Proof. exact u_wbr_only. Qed.
+Print Assumptions C16_js_wbr_only.
+
+(* apostrophe ( LF U+2028 lone-high a  ->  backslash-x27 ( backslash-n backslash-u2028 lone-high a ;
+   U+1F600 (D83D DE00) encodes as %F0%9F%98%80 ; a lone surrogate makes escapeUri throw ;
+   truncate backs out of a surrogate pair *)
+Example C16_js_nonvacuous :
+  u_escape_js_string [39; 40; 10; 8232; 55357; 97] = [92; 120; 50; 55; 40; 92; 110; 92; 117; 50; 48; 50; 56; 55357; 97]
+  /\ jsu_read 39 [92; 120; 50; 55; 40; 92; 110; 92; 117; 50; 48; 50; 56; 55357; 97] = Some [39; 40; 10; 8232; 55357; 97]
+  /\ jsu_read 39 [97; 39] = None /\ jsu_read 34 [8232] = None
+  /\ u_escape_uri [97; 32; 39; 55357; 56832] = Ok (b "a%20%27%F0%9F%98%80")
+  /\ (exists m, u_escape_uri [97; 55357] = Err m)
+  /\ u_truncate [97; 55357; 56832; 98] 2 false = [97]
+  /\ u_truncate [97; 98; 99; 100; 101; 102] 5 true = [97; 98; 46; 46; 46]
+  /\ u_insert_word_breaks [97; 60; 98; 99; 100] 2 = b "a&lt;<wbr>bc<wbr>d"
+  /\ u_change_newline_to_br [97; 13; 10; 60] = b "a<br>&lt;".
+Proof. vm_compute. repeat split; try reflexivity. eexists; reflexivity. Qed.
